@@ -465,7 +465,7 @@ Section WithBuiltins.
         do (st2, n) <- close_element_immediate st1;
         BOk (with_spans st2 (span_add (b_spans st2) (KElEnd n) sp))
     | TkComment text =>
-        do (st1, n) <- add_node st (VComment (ss_text text));
+        do (st1, n) <- add_node st (VComment (normalize_line_ends (ss_text text)));
         BOk (with_spans st1 (span_add (b_spans st1) (KComment n) (ss_span text)))
     | TkPI target content =>
         (* a processing instruction token with the reserved target: the XML declaration, when it is spelled xml, stands at
@@ -489,7 +489,7 @@ Section WithBuiltins.
           BErr (PEXmlParser (sp_end (ss_span target)))
         else
         do (tid, t1) <- of_res (x_add_name_ns (b_tabs st) (ss_text target) nn);
-        do (st1, n) <- add_node (with_tabs st t1) (VPI tid (match content with Some c => Some (ss_text c) | None => None end));
+        do (st1, n) <- add_node (with_tabs st t1) (VPI tid (match content with Some c => Some (normalize_line_ends (ss_text c)) | None => None end));
         let m1 := span_add (b_spans st1) (KPiTarget n) (ss_span target) in
         BOk (with_spans st1 (match content with Some c => span_add m1 (KPiContent n) (ss_span c) | None => m1 end))
     | TkDecl version =>
